@@ -737,7 +737,64 @@ def r198(facts, res):
         res.ok(R, 'no-unchecked-stripped-len-sub', '', 'no unchecked subtraction from the length of a str::lines() item (%d such subtractions, all guarded)' % n)
 
 
+def r199(facts, res):
+    """The caret line of a diagnostic is indented by the width of the gutter `<line number>| ` printed on the line above it.
+    The number whose decimal width is taken (`n.to_string().len()`) must be the number printed on that very line: a width
+    taken once from the first line's number is one short from the line where the number gains a digit (9 -> 10), and the
+    carets point one column to the left of the text they report."""
+    R = 'R19.9'
+    bs = [b for b in facts.lib_bodies(['lrpar']) if b.name == 'prefixed_underline_span_with_text' and b.kind != 'closure']
+    if len(bs) != 1:
+        return res.lost(R, 'prefixed_underline_span_with_text not found')
+    b = bs[0]
+    loops = b.loops()
+    # usize values printed by a format macro inside a loop
+    printed = {}
+    for bb, t in b.calls_named('new_display'):
+        if not t['args'] or not any(bb in loops[h] for h in loops):
+            continue
+        r, pj, _v = b.op_root(t['args'][0], through=())
+        # the arguments of a format macro travel in a tuple of references: (&a, &b).k
+        ks = [pr['f'] for pl_ in pj for pr in pl_ if isinstance(pr, dict) and 'f' in pr]
+        if r is not None and b.lty(r).startswith('(') and ks:
+            for d in b.defs().get(r, []):
+                if d[1] == 'stmt' and d[2].get('agg') == 'tuple' and ks[-1] < len(d[2]['ops']):
+                    r = b.op_root(d[2]['ops'][ks[-1]], through=())[0]
+        if r is not None and b.lty(r) == 'usize':
+            printed.setdefault(r, bb)
+    # widths: len(to_string(&n)) with n: usize
+    widths = []
+    for bb, t in b.calls_named('len'):
+        if 'String' not in (cpath(t) or '') or not t['args']:
+            continue
+        r0, _p0, via0 = b.op_root(t['args'][0], through=Body.THROUGH, stop_named=False)
+        r, via = None, []
+        for d in b.defs().get(r0, []) if r0 is not None else []:
+            if d[1] == 'call' and cname(d[2]) == 'to_string' and d[2]['args']:
+                r = b.op_root(d[2]['args'][0], through=())[0]
+                via = ['to_string']
+        if 'to_string' in via and r is not None and b.lty(r) == 'usize':
+            widths.append((bb, r, t))
+    if not widths:
+        res.ok(R, 'gutter-width', loc_of(b), 'the gutter width is not computed as the length of a printed number (form not analysed)')
+        res.note('R19.9: no `n.to_string().len()` in prefixed_underline_span_with_text; not decided')
+        return
+    if not printed:
+        return res.lost(R, 'no line number is printed inside the line loop')
+    for bb, r, t in widths:
+        key = 'gutter-width'
+        inloop = any(bb in loops[h] for h in loops)
+        if r in printed and inloop:
+            res.ok(R, key, loc_of(b, bb), 'the width is that of the line number printed on the same round of the line loop')
+        elif r in printed:
+            res.bad(R, key, loc_of(b, bb), 'the gutter width is computed outside the loop that prints the lines')
+        else:
+            res.bad(R, key, loc_of(b, bb), 'the gutter width is taken from `%s`, but the number printed on each line is `%s`: once the printed number has more digits '
+                    'the carets are indented too little' % (b.name_of(r) or '_%d' % r, ', '.join(sorted(b.name_of(x) or '_%d' % x for x in printed))))
+
+
 def run(facts, res):
+    r199(facts, res)
     r198(facts, res)
     r197(facts, res)
     r196(facts, res)
